@@ -75,6 +75,7 @@ type Limits struct {
 	Unwind       int // max symbolic decisions at one instruction in one frame
 	MaxViolPerLb int
 	Deadline     time.Time
+	CrossCheck   bool // re-decide every assertion query with the alternate back end
 }
 
 type Explorer struct {
@@ -609,6 +610,11 @@ func (i *interpreter) assert(c value, label, kf string, trigger value) {
 	report := func(extra []*Term, kfid string) bool {
 		q := append([]*Term{neg}, extra...)
 		res, model := p.w.solver.Check(p.pc, q, p.inputVars())
+		if p.w.ex.Limits.CrossCheck && res != Unknown {
+			if r2 := p.w.solver.Cross(p.pc, q); r2 != Unknown && r2 != res {
+				p.w.ex.inconclusive(fmt.Sprintf("solver disagreement on assertion %q: %s says %v, %s says %v", label, p.w.solver.Kind, res, p.w.solver.AltKind, r2))
+			}
+		}
 		switch res {
 		case Sat:
 			v := &Violation{Harness: p.w.ex.Name, Label: label, Kind: "assert", KF: kfid,
